@@ -67,6 +67,10 @@ fn gen_value(rng: &mut Rng) -> RValue {
 }
 
 fn gen_entry(rng: &mut Rng) -> REntry {
+    if rng.chance(1, 10) {
+        // the smallest entry the grammar allows (8 bytes on the wire: 77 01 01 01 01 01 01 01)
+        return REntry { name: Hx(vec![]), status: None, val_time: None, unit: None, scaler: None, value: RValue::Bytes(Hx(vec![])), sig: None };
+    }
     REntry {
         name: gen_oct(rng, 8),
         status: match rng.below(8) {
@@ -629,7 +633,19 @@ pub fn corpus() -> &'static Vec<Vec<Vec<u8>>> {
 // Byzantine mutations of a message body (applied before sealing => CRC re-sealed)
 // ---------------------------------------------------------------------------
 
-pub const INFLATE_VALUES: [u128; 33] = [
+pub const INFLATE_VALUES: [u128; 45] = [
+    0x2000_0000,
+    0x2000_0001,
+    0x4000_0000,
+    0x4000_0001,
+    0x6000_0000,
+    0xc000_0003,
+    0xe000_0000,
+    0x0800_0000,
+    0x1000_0000,
+    0x1fff_ffff,
+    0x0200_0002,
+    0x0040_0000,
     (1u128 << 64) | 6,
     (1u128 << 68) | 3,
     (0xau128 << 64) | 0x10,
@@ -951,8 +967,9 @@ pub fn gen_file_scn(rng: &mut Rng, _tier: Tier, prop: &str, em: &Emphasis) -> Fi
         }
         if rng.chance(1, 6) {
             let mi = rng.below(msgs.len());
-            msgs[mi].seal = match rng.below(7) {
+            msgs[mi].seal = match rng.below(9) {
                 5 | 6 => Seal::TruncCrc(rng.below(2) as u8),
+                7 | 8 => Seal::BadCrcWrongEnd(rng.range(1, 0xffff) as u16, *rng.pick(&[0x01u8, 0x76, 0xff, 0x1b])),
                 0 => Seal::BadCrc(rng.range(1, 0xffff) as u16),
                 1 => Seal::WrongEnd(*rng.pick(&[0x01u8, 0x76, 0xff])),
                 2 => Seal::NoEnd,
